@@ -8,3 +8,14 @@ claim('C20', 'exploration',
       'pattern derived from the macro name.',
       'runtime monitoring: exhaustive table read-out of the instrumented library judged by a documentation-derived oracle',
       'DESIGN.md section 4, C20')
+
+claim('C19', 'exploration',
+      'Random histories (40-150 steps) of every value / list / table / packet operation, including wrong-kind calls, '
+      'out-of-range indices, invalid keys and names, the documented aliasing cases and self-insertion, run against the '
+      'ASan+UBSan library in lock-step with a functional reference model; every touched object is re-read after each '
+      'step and all live objects every ten steps, so shared storage between clone and original shows as an unexpected '
+      'change or a sanitizer report; at the end everything is released and the allocation ledger must balance.',
+      'Held on the histories generated (seeded); nesting bounded by the generator (depth <= 4 plus self-insertion). '
+      'Key / name equivalence of the fixed pools comes from Python unicodedata, which is final for those characters.',
+      'runtime monitoring: model-based random histories under ASan/UBSan with allocation-ledger and global-state monitors',
+      'DESIGN.md section 4, C19')
